@@ -50,8 +50,10 @@ fn scenario(n: u32) -> Vec<(Vec<&'static str>, Cfg)> {
         // different orders, process state written by one configuration is visible to the other, and the second
         // build of each thread meets whatever the first builds left behind
         0 => vec![
-            (vec!["a1xx", "a2yy", "b1yy", "b2xx"], Cfg { digits: true, ..NONE }),
-            (vec!["b2xx", "a1xx", "b1yy", "a2yy", "a1xx"], Cfg { words: true, ..NONE }),
+            // (the tails carry a regex metacharacter and a control character: the escaping tables are first used
+            // under contention too)
+            (vec!["a1x$", "a2y\t", "b1y\t", "b2x$"], Cfg { digits: true, ..NONE }),
+            (vec!["b2x$", "a1x$", "b1y\t", "a2y\t", "a1x$"], Cfg { words: true, ..NONE }),
         ],
         // different configurations on the same strings (cross-talk through process state)
         1 => vec![
